@@ -15,6 +15,39 @@ CLAIMED = {
     "C02": ("bounded symbolic execution of the real sweep/policy kernels under a z3-valued JAX trace; per-state SMT equality with an independent Bellman backup",
             "For every enumerated shape/batch/device configuration, z3 shows that for ALL real-valued V, R, P, gamma and all successor tables the real pmapped sweep equals max_a sum_e P(R+gamma V[succ]) and the extracted policy is a greedy action from the action space; monotonicity, shift and contraction are shown on the code's own terms.",
             TRUST, "DESIGN.md section 3, C02"),
+    "C03": ("per-state SMT equalities of every per-iteration function of every solver with a partition-free reference over the (n_states, batch size, devices, offset) box + syntactic support check on the z3 terms; concrete multi-device runs of the real solvers",
+            "Two per-iteration functions that each equal the same reference for all inputs equal each other, so trajectories agree by induction: shown for the VI sweep, policy extraction, initial values and PI's evaluation step for ALL V, R, P, gamma, successor tables on every enumerated partition (1-2 devices quick, up to 8 thorough), with no padded-slot symbol in any real state's term and all outputs of length n_states; the five real solvers additionally run on the emulated devices (this leg found the no-padding multi-device crash, now fixed).",
+            TRUST, "DESIGN.md section 3, C03"),
+    "C04": ("real RVI solve(1) under the z3-valued trace from the real initial state and from any invariant-satisfying state; optimal gain/bias and policy gain as linear fixed-point unknowns; all unichain-aperiodic structures substituted",
+            "For every enumerated unichain aperiodic structure and ALL rewards, values, epsilon: on the reported-convergence path |gain - g*| <= eps, g* - gain(policy) <= eps and the optimality-equation residual of the returned relative values is <= eps; the invariant gain == values[-1] is established by every iteration.",
+            TRUST, "DESIGN.md section 3, C04"),
+    "C05": ("real PI methods under the z3-valued trace / path explorer: evaluation step vs T_pi, evaluation accuracy with V_pi as linear unknowns, break-iff-no-component-changed with symbolic policies, greedy extraction, initial policy",
+            "For ALL policies, values, tables (enumerated shapes): one evaluation sweep is T_pi; a converged evaluation is within eps/gamma of V_pi (all 16 structures, max_eval_iter 1..3, reset on/off); solve stops early iff no component of any state's action vector changed (action dim 1 and 2); the returned policy is greedy for the returned values; the first evaluated policy is the problem's or the immediate-reward maximiser.",
+            TRUST, "DESIGN.md section 3, C05"),
+    "C06": ("real semi-async sweep under the z3-valued trace vs a block Gauss-Seidel reference over the real partition and permutation (PRNG stub enumerating permutations, both duplicate-scatter orders)",
+            "For ALL V, R, P, gamma, successor tables on each enumerated (n_states<=4(5), batch size, devices, permutation): every state's new value is the Bellman backup of the carried values in the documented order; every state sits in exactly one non-padded slot; fixed points coincide with the synchronous backup's; seed determinism and fresh sub-keys are checked on the real PRNG.",
+            TRUST, "DESIGN.md section 3, C06"),
+    "C07": ("real periodic solve loop under the path explorer with an np shim for the host-side history buffer; code's measure vs documented measure as z3 terms; average-reward claim with AROE unknowns over all unichain structures",
+            "For periods 1..3, gamma symbolic in (0,1) or 1, any iterates (fresh symbols, buffer wrapping twice): the measure equals the documented one at every n, inf before a full period, stop iff measure < eps, values/buffer/index as documented; one real sweep equals the Bellman backup; for gamma=1, period 2 on every unichain deterministic structure (periodic ones included) (V_n-V_(n-2))/2 is within eps/2 of the optimal gain.",
+            TRUST, "DESIGN.md section 3, C07"),
+    "C09": ("real solve/save/restore/load_checkpoint under the path explorer with a contract model of Orbax (validated against the real library on disk); final states compared as z3 terms",
+            "For all five solvers, both routes, interruption points and chains within K<=4(5), f, m, sync/async: on every path where the interrupted calls stopped at their limits the resumed run's values, policy, iteration, gain, history and index equal those of one uninterrupted run without checkpointing, for ALL initial values and sweep results (uninterpreted sweep); checkpointing on/off never changes results.",
+            TRUST + "; Orbax model validated on 48 schedules against the real library", "DESIGN.md section 3, C09"),
+    "C10": ("state completeness by saving/restoring fresh symbols through the Orbax contract model; step selection over enumerated save histories; overrides; error paths and bitwise round trips on the real Orbax",
+            "Every documented runtime field comes back as the identical term through restore() and load_checkpoint() (known finding: VI-family solvers drop a stored policy), the default step is the latest and an explicit step is honoured for every save history (steps<=4, length<=3), overrides leave the state and the original directory untouched and govern later saves, documented errors are raised; 5 solvers x 4 shipped problems round-trip bitwise on the real Orbax.",
+            TRUST + "; configuration equality through YAML is concrete evaluation", "DESIGN.md section 3, C10"),
+    "C12": ("real solve()/save() of all five solvers under the path explorer with the Orbax contract model; retained set, labels and contents checked per host path",
+            "For f in 1..3, m in 1..3, sync/async, call sequences with optional restore into the same/new directory and every convergence pattern: the retained steps are exactly the m most recent of {multiples of f} U {last iteration of each call}, each labelled with and containing the state of its iteration (as terms), config.yaml present iff reconstructible; f=0 creates nothing.",
+            TRUST + "; Orbax model validated against the real library", "DESIGN.md section 3, C12"),
+    "C13": ("real probability-table construction and random_event_probability executed on symbolic special-function values (contract stubs); linear/polynomial identities and sign conditions by z3",
+            "For ALL values of the continuous parameters (through the special functions' contracts) and enumerated sizes: every event probability >= 0 and the sum over events == 1 for Forest, De Moor, Mirjalili; for Hendrix sum + P(characterised truncation region) == 1 and no mass is duplicated (the stated sum == 1 fails: known finding).",
+            TRUST + "; special functions trusted to satisfy their contracts", "DESIGN.md section 3, C13"),
+    "C16": ("composition check: stubs record the parameters/evaluation points of the special functions; the real code's probabilities are compared as terms with the documented formulas (brute force for Hendrix)",
+            "Gamma(shape, rate) with shape/rate == mean and shape*CoV^2 == 1, cdf differences at half-integers with the censored tail; NB(n, 1-n/(n+delta)) censored x multinomial with reversed logits [0, c0+c1*order]; Hendrix four-case decomposition == brute-force joint distribution over the truncated region for every stock pair and event; Hendrix initial value == expected revenue; Forest table.",
+            TRUST + "; numerical values of the special functions are outside the claim", "DESIGN.md section 3, C16"),
+    "C20": ("validators and threshold/format set-up executed on symbolic host scalars under the path explorer (accepted <=> documented domain; no exception for any gamma in [0,1], eps in [1e-15,1e10)); routes and dtypes by concrete runs in fresh processes",
+            "Every validator accepts exactly the documented domain and rejects with ValueError/TypeError; construction and a solve iteration with all progress messages complete for ALL gamma in [0,1] and epsilon over 25 decades for all five solvers; the three construction routes give identically configured, identically behaving solvers; gamma and values are float64 in both construction orders (four defects found here were fixed).",
+            TRUST + "; route equivalence and dtypes are concrete evaluations, not SMT claims", "DESIGN.md section 3, C20"),
     "C08": ("real solve() loops of all five solvers executed under a re-execution path explorer with the sweep abstracted as an uninterpreted function; SMT validities over the recorded terms",
             "For all gamma in [0,1], epsilon>0, initial values and every convergence outcome pattern within k<=3(4) sweeps: threshold equals the documented formula, at most k sweeps, stop exactly at the first sweep below the documented measure, iteration == sweeps, values == U^n(V0), solve(k1);solve(k2) == solve(k1+k2). Bounded by k and S=2 (sweep content is C02).",
             TRUST, "DESIGN.md section 3, C08"),
